@@ -122,3 +122,70 @@ MUTANTS["C07"] = [
     ("disconnect of a self pair clears the first matching out slot of any module with that index",
      [("rv/project.py", "                    out_link_idx = out_links.index(to_mod_idx)\n", "                    out_link_idx = out_links.index(to_mod_idx) if from_mod_idx != to_mod_idx else len(out_links) - 1\n")]),
 ]
+
+MUTANTS["C08"] = [
+    ("SLnK written only when some slot > 0 (drops files whose only non-zero slot is... none) -> any() over s > 0 is the same; use all()",
+     [("rv/project.py", "if any(s not in (-1, 0) for s in module.in_link_slots):", "if all(s not in (-1, 0) for s in module.in_link_slots):")]),
+    ("slot rebuild skips freed entries without keeping the slot list parallel (needs a slot-less file with a hole)",
+     [("rv/readers/sunvox.py", "                if other_mod_num == -1:\n                    mod.in_link_slots.append(-1)\n                    continue", "                if other_mod_num == -1:\n                    continue")]),
+    ("slot rebuild computes the source slot after appending",
+     [("rv/readers/sunvox.py", "                in_slot = len(other_mod.out_link_slots)\n                out_slot = len(mod.in_link_slots)\n                mod.in_link_slots.append(in_slot)\n                other_mod.out_links.append(mod.index)\n                other_mod.out_link_slots.append(out_slot)",
+       "                out_slot = len(mod.in_link_slots)\n                other_mod.out_links.append(mod.index)\n                other_mod.out_link_slots.append(out_slot)\n                in_slot = len(other_mod.out_link_slots)\n                mod.in_link_slots.append(in_slot)")]),
+    ("SLNK reader stops stripping trailing -1 while SLnK reader still does",
+     [("rv/readers/module.py", "        links.extend(unpack(structure, data))\n        while links[-1:] == [-1]:\n            links.pop()", "        links.extend(unpack(structure, data))")]),
+    ("writer stores out_link_slots in SLnK",
+     [("rv/project.py", "                    link_slots = pack(structure, *link_slots)", "                    link_slots = pack(structure, *(module.out_link_slots + [0] * len(links))[: len(module.in_links)])")]),
+    ("freed slot in the middle is compacted away by the writer",
+     [("rv/project.py", "                links = module.in_links\n                link_slots = module.in_link_slots\n",
+       "                links = [x for x in module.in_links if x != -1]\n                link_slots = [s for x, s in zip(module.in_links, module.in_link_slots) if x != -1]\n")]),
+    ("out-link rebuild drops the slot back-reference for slot 0",
+     [("rv/readers/sunvox.py", "                if out_link_idx != -1:\n                    out_links[out_link_idx] = mod.index\n                    out_link_slots[out_link_idx] = in_link_idx",
+       "                if out_link_idx != -1:\n                    out_links[out_link_idx] = mod.index\n                    out_link_slots[out_link_idx] = in_link_idx or out_link_slots[out_link_idx]")]),
+]
+
+MUTANTS["C14"] = [
+    ("attach always appends (gaps never reused)",
+     [("rv/project.py", "            if not loading and None in self.modules:", "            if False and None in self.modules:")]),
+    ("attach fills the highest gap",
+     [("rv/project.py", "                module.index = self.module_index(None)\n", "                module.index = len(self.modules) - 1 - self.modules[::-1].index(None)\n")]),
+    ("parent assigned before the ownership test (refusal no longer atomic)",
+     [("rv/project.py", "        elif module.parent is not None and module.parent is not self:\n            raise ModuleOwnershipError(\"Module is already attached to another project.\")",
+       "        elif module.parent is not None and module.parent is not self:\n            module.index = None\n            raise ModuleOwnershipError(\"Module is already attached to another project.\")")]),
+    ("attach_pattern appends before raising",
+     [("rv/project.py", "        if pattern and pattern.project is not None:\n            raise PatternOwnershipError(\"Pattern already attached to a project\")\n        self.patterns.append(pattern)",
+       "        self.patterns.append(pattern)\n        if pattern and pattern.project is not None:\n            raise PatternOwnershipError(\"Pattern already attached to a project\")")]),
+    ("loader fills gaps (loading flag ignored)",
+     [("rv/project.py", "            if not loading and None in self.modules:", "            if None in self.modules:")]),
+    ("note.mod off by one beyond the end",
+     [("rv/note.py", "        elif self.module_index < len(self.project.modules):", "        elif self.module_index <= len(self.project.modules) - 1 or self.module_index == len(self.project.modules) + 4:")]),
+    ("gap filling shifts the index of the module after the gap",
+     [("rv/project.py", "                self.modules[module.index] = module\n", "                self.modules[module.index] = module\n                if module.index + 1 < len(self.modules) and self.modules[module.index + 1] is not None and module.index > 2:\n                    self.modules[module.index + 1].index = module.index + 1 - (module.index % 2)\n")]),
+    ("double attach re-appends when the module sits after a gap",
+     [("rv/project.py", "        elif module not in self.modules:", "        elif module not in self.modules[: (self.modules.index(None) if None in self.modules else len(self.modules))]:")]),
+    ("loader drops empty positions in the middle",
+     [("rv/readers/sunvox.py", "        self.object.attach_module(None, loading=True)  # empty module", "        if len(self.object.modules) < 2:\n            self.object.attach_module(None, loading=True)  # empty module")]),
+]
+
+MUTANTS["C12"] = [
+    ("revert fix F7 (OR-ing note setters)", [("revert", "1362626")]),
+    ("effect setter clears the high byte",
+     [("rv/note.py", "        self.ctl = (self.ctl & 0xFF00) | (value & 0xFF)", "        self.ctl = value & 0xFF")]),
+    ("val_yy setter shifts by 4",
+     [("rv/note.py", "        self.val = (self.val & 0xFF00) | (value & 0xFF)", "        self.val = (self.val & 0xFF00) | ((value << 4) & 0xFF)")]),
+    ("oscilloscope_size getter masks 7 bits",
+     [("rv/modules/module.py", "        return self.value >> 16 & 0xFF", "        return self.value >> 16 & 0x7F")]),
+    ("SMII packs channel << 2",
+     [("rv/modules/module.py", "int(self.midi_in_always) + (self.midi_in_channel << 1)", "int(self.midi_in_always) + (self.midi_in_channel << 2)")]),
+    ("SFGS other flags shifted by 2",
+     [("rv/project.py", "self.receive_sync_midi | (self.receive_sync_other << 3)", "self.receive_sync_midi | (self.receive_sync_other << 2)")]),
+    ("raw_data truncates the module number to 8 bits when a velocity is present",
+     [("rv/note.py", "        return pack(\"<BBHHH\", self.note, self.vel, self.module, self.ctl, self.val)", "        return pack(\"<BBHHH\", self.note, self.vel, self.module & 0xFF if self.vel > 128 else self.module, self.ctl, self.val)")]),
+    ("bg_transparency setter forgets to clamp above",
+     [("rv/modules/module.py", "self.value - (self.bg_transparency << 24) + (max(0, min(v, 3)) << 24)", "self.value - (self.bg_transparency << 24) + (max(0, v) << 24)")]),
+    ("orientation setter clears oscilloscope bit 8 when set to vertical",
+     [("rv/modules/module.py", "        self.value = self.value - (int(self.orientation) << 5) + ((int(v) & 1) << 5)", "        self.value = (self.value - (int(self.orientation) << 5) + ((int(v) & 1) << 5)) & ~((int(v) & 1) << 8)")]),
+    ("pattern raw_data setter reads column-major for non-square patterns",
+     [("rv/pattern.py", "                offset = (line_no * self.tracks * 8) + (track_no * 8)", "                offset = (line_no * self.tracks * 8) + (track_no * 8) if self.lines != 3 else (track_no * self.lines * 8) + (line_no * 8)")]),
+    ("loader masks note.module to 8 bits for current files too",
+     [("rv/readers/sunvox.py", "        if self.object.loaded_sunvox_version < (1, 9, 5, 0):", "        if self.object.loaded_sunvox_version < (2, 9, 5, 0):")]),
+]
